@@ -34,7 +34,7 @@ ASSUMPTIONS = [
 
 KINDS = ["inmemory", "sqlite", "cached_sqlite", "journal_file", "journal_redis", "grpc:inmemory", "grpc:journal_file"]
 READS = ["trials", "get_trials_nocopy", "get_trials_copy", "get_trials_states", "best_trial", "best_trials", "user_attrs", "system_attrs", "frozen_fields", "st_get_trial", "st_get_all_trials_nocopy", "st_get_all_trials_copy", "st_best", "st_studies", "st_trial_attrs", "st_trial_params"]
-WRITES = ["ask", "suggest", "report", "attr", "tell", "enqueue", "add_trial", "study_attr", "st_param", "st_iv", "st_attr", "st_state"]
+WRITES = ["ask", "suggest", "report", "attr", "tell", "tell", "enqueue", "add_trial", "study_attr", "st_param", "st_iv", "st_attr", "st_state", "st_constraints", "st_constraints"]
 
 
 @st.composite
@@ -57,7 +57,16 @@ def case_seq(draw: Any) -> dict[str, Any]:
                     "v": float(draw(st.integers(-3, 3))),
                 }
             )
-    return {"backend": draw(st.sampled_from(KINDS)), "n_obj": draw(st.sampled_from([1, 1, 2])), "ops": [{"k": "write", "what": "ask", "t": 0, "thread": 0, "name": "x", "step": 0, "state": "COMPLETE", "v": 0.0}] + ops}
+    n_obj = draw(st.sampled_from([1, 1, 2]))
+    if n_obj == 1 and draw(st.integers(0, 3)) == 0:
+        # a constrained history: the best-valued trial is infeasible, a feasible one exists
+        # (Study.best_trial then takes its fallback path)
+        def w(what: str, **kw: Any) -> dict[str, Any]:
+            return {"k": "write", "what": what, "t": 0, "thread": draw(st.integers(0, 1)), "name": "x", "step": 0, "state": "COMPLETE", "v": 0.0, **kw}
+
+        pre = [w("st_constraints", step=1), w("tell", v=-3.0), w("ask"), w("st_constraints", step=0), w("tell", v=2.0), {"k": "read", "what": "best_trial", "t": 0, "thread": 0}]
+        ops = pre + ops
+    return {"backend": draw(st.sampled_from(KINDS)), "n_obj": n_obj, "ops": [{"k": "write", "what": "ask", "t": 0, "thread": 0, "name": "x", "step": 0, "state": "COMPLETE", "v": 0.0}] + ops}
 
 
 def run_seq(case: dict[str, Any], ctx: Ctx) -> None:
@@ -77,13 +86,33 @@ def run_seq(case: dict[str, Any], ctx: Ctx) -> None:
         live: list[Any] = []  # Trial objects
         held: list[Any] = []  # (label, object, pickle at read time, deep?)
         pairs: set[tuple[str, str]] = set()
-        out_of_scope = 0
+        poisoned_by: list[str] = []
 
         def running() -> list[Any]:
             return [t for t in live if st_.get_trial(t._trial_id).state == TrialState.RUNNING]
 
         def hold(label: str, obj: Any, deep: bool) -> None:
+            if deep:
+                # the caller owns a deep copy: modify it at once; no later read may show it
+                for x in obj if isinstance(obj, list) else [obj]:
+                    if isinstance(x, dict):
+                        x["__poison__"] = 1
+                    elif hasattr(x, "params"):
+                        x.params["__poison__"] = 1
+                        x.user_attrs["__poison__"] = 1
+                        x.system_attrs["__poison__"] = 1
+                        x.intermediate_values[999] = 1.0
+                poisoned_by.append(label)
             held.append([label, obj, pickle.dumps(obj), deep])
+
+        def check_poison(after: str) -> None:
+            if not poisoned_by:
+                return
+            for x in st_.get_all_trials(sid, deepcopy=False) + study.get_trials(deepcopy=False):
+                if "__poison__" in x.params or "__poison__" in x.user_attrs or "__poison__" in x.system_attrs or 999 in x.intermediate_values:
+                    raise Violation("mutating-a-deep-copy-affected-the-study", f"backend={case['backend']}: after {after}, trial {x.number} shows a modification made to a deep-copied result of {sorted(set(poisoned_by))}", case)
+            if "__poison__" in study.user_attrs or "__poison__" in study.system_attrs:
+                raise Violation("mutating-a-deep-copy-affected-the-study", f"backend={case['backend']}: study attrs show the poison", case)
 
         def do_read(op: dict[str, Any]) -> None:
             w = op["what"]
@@ -180,13 +209,16 @@ def run_seq(case: dict[str, Any], ctx: Ctx) -> None:
                 st_.set_trial_system_attr(t._trial_id, "ss", {"v": op["v"]})
             elif w == "st_state":
                 st_.set_trial_state_values(t._trial_id, TrialState.FAIL)
+            elif w == "st_constraints":
+                # what a sampler with constraints_func records (drives best_trial's fallback path)
+                st_.set_trial_system_attr(t._trial_id, "constraints", [1.0] if op["step"] % 2 else [-1.0])
             return w
 
-        poisoned = False
         for i, op in enumerate(case["ops"]):
             pool = pools[op["thread"]]
             if op["k"] == "read":
                 pool.submit(do_read, op).result()
+                check_poison(f"read {op['what']}")
                 continue
             w = pool.submit(do_write, op).result()
             if w is None:
@@ -200,33 +232,13 @@ def run_seq(case: dict[str, Any], ctx: Ctx) -> None:
                         f"backend={case['backend']}: object obtained by {label} changed after {w} (op {i}, thread {op['thread']}): was {pickle.loads(blob)!r}, now {obj!r}",
                         case,
                     )
-            # poison the deep-copied results we hold, then read again
-            if not poisoned and any(d for *_, d in held):
-                poisoned = True
-                for h in held:
-                    label, obj, blob, deep = h
-                    if not deep:
-                        continue
-                    for x in obj if isinstance(obj, list) else [obj]:
-                        if isinstance(x, dict):
-                            x["__poison__"] = 1
-                        elif hasattr(x, "params"):
-                            x.params["__poison__"] = 1
-                            x.user_attrs["__poison__"] = 1
-                            x.system_attrs["__poison__"] = 1
-                            x.intermediate_values[999] = 1.0
-                    h[2] = pickle.dumps(obj)
-                for x in study.trials + st_.get_all_trials(sid, deepcopy=False):
-                    if "__poison__" in x.params or "__poison__" in x.user_attrs or "__poison__" in x.system_attrs or 999 in x.intermediate_values:
-                        raise Violation("mutating-a-deep-copy-affected-the-study", f"backend={case['backend']}: trial {x.number} shows the poison", case)
-                if "__poison__" in study.user_attrs or "__poison__" in study.system_attrs:
-                    raise Violation("mutating-a-deep-copy-affected-the-study", f"backend={case['backend']}: study attrs show the poison", case)
+            check_poison(w)
         if not ctx.frozen:
             m = ctx.extra.setdefault("matrix", {})
             for g, w in pairs:
                 key = f"{case['backend']}|{g}|{w}"
                 m[key] = m.get(key, 0) + 1
-        ctx.case(fp=sorted(f"{case['backend']}|{g}|{w}" for g, w in pairs), nontrivial=bool(pairs), classes=[case["backend"], "poisoned" if poisoned else "no-deep-copy-held"], sample=case)
+        ctx.case(fp=sorted(f"{case['backend']}|{g}|{w}" for g, w in pairs), nontrivial=bool(pairs), classes=[case["backend"], "poisoned" if poisoned_by else "no-deep-copy-held"], sample=case)
     finally:
         for p in pools:
             p.shutdown(wait=True)
